@@ -15,8 +15,8 @@ from mc import clidrv, core
 from props import c16
 
 PROP = "C19"
-SYMS = ['"', "'", "\\", "\n", "é", "a", " ", "#", '"""', "'''", "U", "x"]
-NAMES = {'"': "dq", "'": "sq", "\\": "bs", "\n": "nl", "é": "eacute", "a": "a", " ": "sp", "#": "hash", '"""': "dq3", "'''": "sq3", "U": "U", "x": "x"}
+SYMS = ['"', "'", "\\", "\n", "é", "a", " ", "#", '"""', "'''", "U", "x", "\u2028", "\x0c"]
+NAMES = {'"': "dq", "'": "sq", "\\": "bs", "\n": "nl", "é": "eacute", "a": "a", " ": "sp", "#": "hash", '"""': "dq3", "'''": "sq3", "U": "U", "x": "x", "\u2028": "ls", "\x0c": "ff"}
 FWS = ["base", "pydantic", "sqlmodel", "attrs", "dataclasses"]
 BLANKS = ["", " ", "\n\n", "\t", " \n \t "]
 SAMPLES = [{"id": 1, "name": "x", "tags": ["a"]}, {"id": 2, "name": "y", "tags": []}]
@@ -177,7 +177,7 @@ def _subproc(case):
 
 def run(tier, seed):
     r = core.Run(PROP, tier, seed)
-    r.rule = ("all strings of <=2/3 symbols over 12 symbols (dq, sq, backslash, newline, e-acute, a, space, #, triple dq, triple sq, U, x) x placement "
+    r.rule = ("all strings of <=2/3 symbols over 14 symbols (dq, sq, backslash, newline, e-acute, a, space, #, triple dq, triple sq, U, x, U+2028, form feed) x placement "
               "{--dkf value, comment preamble, repr assignment preamble, triple-quoted assignment preamble, file name} x 5 frameworks; 5 blank "
               "preambles and 5 multi-line preambles x frameworks x {typed, import-free} data; non-trivial = non-blank cases")
     r.bounds = {"tier": tier}
